@@ -1810,8 +1810,8 @@ class Scheduler:
 
         # Record the job as pending, since we're submitting it.
         # Note that if the CSE is disabled, this job might have the same `eval_hash` as a prior
-        # one. We don't care about overwriting, however, since they're all equivalent.
-        self._pending_jobs[(job.eval_hash, job.context_hash)] = job
+        # one. Keep the prior one registered: it stays pending until it is finalized.
+        self._pending_jobs.setdefault((job.eval_hash, job.context_hash), job)
 
         # Submit job.
         if not job.task.script:
@@ -1995,7 +1995,10 @@ class Scheduler:
 
         # Once a job has been recorded to the cache, we don't need to keep around
         # the job, since if we see it again, we'll simply download the result.
-        self._pending_jobs.pop((job.eval_hash, job.context_hash), None)
+        # Only the registered job removes the entry: an equivalent job that runs with CSE
+        # disabled must not unregister a job that is still pending.
+        if self._pending_jobs.get((job.eval_hash, job.context_hash)) is job:
+            self._pending_jobs.pop((job.eval_hash, job.context_hash), None)
 
     def _record_job_tags(self, job: Job) -> None:
         """
